@@ -225,6 +225,11 @@ def run(ctx):
         if n_signal == 0:
             r5.bad('reload-after-restart|%s' % lid.split('::')[-1], 'no restart driven by the restart signal found in the loop', loc=fn.loc(0))
 
+    rule_r7(ctx)
+    from .C10 import rule_save_bookkeeping
+    r8 = ctx.rule('C09.R8', 'power cycle preserves what a warm restart keeps: a retain save is recorded as done only after the store succeeded', floor=1)
+    rule_save_bookkeeping(ctx, r8)
+
     # ------------------------------------------------------------------ R6
     r6 = ctx.rule('C09.R6', 'restart and register_task seed task state from the same sources', floor=1)
     if REGISTER not in fx.fns:
@@ -262,3 +267,36 @@ def run(ctx):
             r6.ok('restart-resets|%s' % what, loc=fn.loc(bl[0]))
         else:
             r6.bad('restart-resets|%s' % what, 'restart can return Ok without resetting the %s' % what, loc=fn.loc(0))
+
+
+def rule_r7(ctx):
+    """restart phase order: globals are re-initialised before program instances are created (program initialisers may read
+    globals), retained program variables are restored after the instances exist"""
+    fx = ctx.fx
+    r7 = ctx.rule('C09.R7', 'restart phase order: globals re-initialised before program instances are created; retained program variables restored after', floor=2)
+    if RESTART not in fx.fns:
+        r7.bad('anchor-missing|restart', 'restart not found')
+        return
+    fn = F(fx.fns[RESTART])
+    r7.saw(len(fn.g))
+    cpi = fn.blocks_calling(lambda n: n.endswith('instance::create_program_instance'))
+    ginit = []
+    for b in fn.g:
+        for s in fn.bbs[b]['s']:
+            if s[0] == 'A' and s[2][0] == 'discr' and place_fields(s[2][1]) and place_fields(s[2][1])[-1].endswith('GlobalVarMeta.init'):
+                ginit.append(b)
+    ginit += fn.blocks_calling(lambda n: n.endswith('instance::create_fb_instance') or n.endswith('instance::create_class_instance'))
+    if not cpi or not ginit:
+        r7.bad('phase-order|shape', 'restart shape not recognised (program instance creation: %d sites, global initialisation: %d sites)' % (len(cpi), len(ginit)), loc=fn.loc(0))
+        return
+    late = [g for g in ginit if any(g in fn.reach_after(c) for c in cpi)]
+    if late:
+        r7.bad('phase-order|globals-before-programs', 'globals are (re)initialised after program instances were created: program variable initialisers that read a global see its pre-restart value, so a cold restart differs from a fresh runtime', loc=fn.loc(late[0]))
+    else:
+        r7.ok('phase-order|globals-before-programs', loc=fn.loc(cpi[0]))
+    siv = fn.blocks_calling(lambda n: n.endswith('VariableStorage::set_instance_var'))
+    early = [b for b in siv if not any(b in fn.reach_after(c) for c in cpi)]
+    if siv and not early:
+        r7.ok('phase-order|retained-after-instances', loc=fn.loc(siv[0]))
+    else:
+        r7.bad('phase-order|retained-after-instances', 'retained program variables are written back before the new program instances exist (the values are lost)', loc=fn.loc(early[0]) if early else fn.loc(0))
